@@ -74,6 +74,11 @@ class AdjointTape(Interpretation):
         one = to_funsor(ops.UNITS[bin_op])
         adjoint_values = defaultdict(lambda: zero)
         adjoint_values[root] = one
+        # Contributions not yet propagated to the inputs. Tape entries that differ
+        # only in the names of bound variables share a key after un-mangling, so
+        # each entry must propagate only what arrived since the previous one.
+        pending = defaultdict(lambda: zero)
+        pending[root] = one
 
         reached_root = False
         while self.tape:
@@ -113,13 +118,14 @@ class AdjointTape(Interpretation):
 
                 self._eager_to_lazy[output] = lazy_output
 
-            in_adjs = adjoint_ops(fn, sum_op, bin_op, adjoint_values[output], *inputs)
+            in_adjs = adjoint_ops(fn, sum_op, bin_op, pending.pop(output, zero), *inputs)
             for v, adjv in in_adjs:
                 # Marginalize out message variables that don't appear in recipients.
                 agg_vars = adjv.input_vars - v.input_vars - root.input_vars - batch_vars
                 assert "particle" not in {var.name for var in agg_vars}  # DEBUG FIXME
-                old_value = adjoint_values[v]
-                adjoint_values[v] = sum_op(old_value, adjv.reduce(sum_op, agg_vars))
+                adjv = adjv.reduce(sum_op, agg_vars)
+                adjoint_values[v] = sum_op(adjoint_values[v], adjv)
+                pending[v] = sum_op(pending[v], adjv)
 
         result = defaultdict(lambda: zero)
         for key, value in adjoint_values.items():
